@@ -260,6 +260,42 @@ func runC08(rc *RunCtx) {
 		rc.Probe("ctor_refused")
 		return
 	}
+	if !rc.Scen.Has("prefix") && rc.Scen.Chance(1, 12) {
+		// user code that the client calls may fail: a logging hook panics once (a formatter indexing past what it was given),
+		// the application recovers the panic around its polling step and goes on - the client must still answer
+		if first, ok := genC07Kind(rc, int(sc.Kind)); ok {
+			if next, ok := genC07Kind(rc, int(sc.Kind)); ok {
+				first.Hooks, first.PanicHook = true, []string{"write", "read", "parse"}[rc.Scen.Choose(3)]
+				first.LongSilence, next.LongSilence = false, false
+				next.Chunks = []Chunk{{N: len(next.Reply)}}
+				next.ReadTimeout, next.PortTimeout, next.TOStyle, next.Flusher, next.WriteTimeout = first.ReadTimeout, first.PortTimeout, first.TOStyle, first.Flusher, first.WriteTimeout
+				next.Then, first.Then = nil, next
+				out := RunC1(rc, first)
+				rc.Desc = first.describe()
+				rc.Desc["hook_that_panics_once"] = first.PanicHook
+				rc.Nontrivial = true
+				rc.Fault("hook_panics_once:"+first.PanicHook, out.HookPanicked)
+				base := fmt.Sprintf("client=%s|after_hook_panic=%s", first.Kind, first.PanicHook)
+				if out.Panic != nil {
+					rc.Violate("panic", base, "panic in %s: %s", out.Panic.Task, out.Panic.Value)
+					return
+				}
+				if !out.Returned || len(out.Next) != 1 || !out.Next[0].Returned {
+					rc.Violate("hang", base, "after a hook panicked inside Do (recovered by the application: %v) the next call on the same client did not return (first returned=%v, hang=%v, overstep=%v)", out.HookPanicked, out.Returned, out.Hang, out.OverStep)
+					return
+				}
+				o := out.Next[0]
+				bound := first.ReadTimeout + 500*time.Microsecond + time.Millisecond
+				if first.Kind == KSerial {
+					bound = first.ReadTimeout + first.PortTimeout + 30*time.Millisecond + time.Millisecond
+				}
+				if o.Elapsed > bound {
+					rc.Violate("unbounded", base, "the call after the recovered hook panic returned after %v simulated; bound %v", o.Elapsed, bound)
+				}
+				return
+			}
+		}
+	}
 	// a call that gave up must leave the client usable: sometimes another call follows on the same client
 	var follow *C1
 	if sc.Fault == FStall && !rc.Scen.Has("prefix") && rc.Scen.Chance(1, 3) {
